@@ -28,11 +28,11 @@ fn accepted_menu(cfg: &Cfg) -> Vec<Reply> {
         Mech::ShortTerm(Some(false)) => vec![ok.with_mac(RMac::Mi), err.with_mac(RMac::Mi)],
         Mech::ShortTerm(None) => vec![ok.with_mac(RMac::Mi), ok.with_mac(RMac::Sha)],
         Mech::LongTerm => vec![
-            Reply::plain(RClass::Error(401)).with_chal(Chal { realm: true, nonce: NonceKind::Plain(1), pas: PasKind::Absent }).with_fp(fp),
-            Reply::plain(RClass::Error(401)).with_chal(Chal { realm: true, nonce: NonceKind::Cookie(true, false, 2), pas: PasKind::Md5Sha256 }).with_fp(fp),
+            Reply::plain(RClass::Error(401)).with_chal(Chal { realm: true, nonce: NonceKind::Plain(1), pas: PasKind::Absent, realm_v: 0 }).with_fp(fp),
+            Reply::plain(RClass::Error(401)).with_chal(Chal { realm: true, nonce: NonceKind::Cookie(true, false, 2), pas: PasKind::Md5Sha256, realm_v: 0 }).with_fp(fp),
             ok.with_mac(RMac::Mi),
             ok.with_mac(RMac::Sha),
-            Reply::plain(RClass::Error(438)).with_chal(Chal { realm: false, nonce: NonceKind::Plain(3), pas: PasKind::Absent }).with_fp(fp),
+            Reply::plain(RClass::Error(438)).with_chal(Chal { realm: false, nonce: NonceKind::Plain(3), pas: PasKind::Absent, realm_v: 0 }).with_fp(fp),
         ],
     }
 }
@@ -82,8 +82,8 @@ fn rejected_menu(cfg: &Cfg, w: &World) -> Vec<(&'static str, Event)> {
                 }
             }
             Mech::LongTerm => {
-                v.push(("401-without-realm", Event::Deliver { to: t.clone(), reply: Reply::plain(RClass::Error(401)).with_chal(Chal { realm: false, nonce: NonceKind::Plain(7), pas: PasKind::Absent }).with_fp(fp) }));
-                v.push(("401-without-nonce", Event::Deliver { to: t.clone(), reply: Reply::plain(RClass::Error(401)).with_chal(Chal { realm: true, nonce: NonceKind::Absent, pas: PasKind::Absent }).with_fp(fp) }));
+                v.push(("401-without-realm", Event::Deliver { to: t.clone(), reply: Reply::plain(RClass::Error(401)).with_chal(Chal { realm: false, nonce: NonceKind::Plain(7), pas: PasKind::Absent, realm_v: 0 }).with_fp(fp) }));
+                v.push(("401-without-nonce", Event::Deliver { to: t.clone(), reply: Reply::plain(RClass::Error(401)).with_chal(Chal { realm: true, nonce: NonceKind::Absent, pas: PasKind::Absent, realm_v: 0 }).with_fp(fp) }));
                 v.push(("438-without-nonce", Event::Deliver { to: t.clone(), reply: Reply::plain(RClass::Error(438)).with_fp(fp) }));
                 // an error response that carries no ERROR-CODE at all: unauthenticated, authenticated, wrongly authenticated
                 for mac in [RMac::None, RMac::Mi, RMac::Sha, RMac::BadMi, RMac::ShaOtherPass] {
@@ -104,8 +104,8 @@ fn rejected_menu(cfg: &Cfg, w: &World) -> Vec<(&'static str, Event)> {
                         (RMac::ShaOtherPass, PasKind::Md5Sha256, NonceKind::Cookie(true, true, 23)),
                         (RMac::BadSha, PasKind::Sha256, NonceKind::Cookie(true, false, 24)),
                     ] {
-                        v.push(("401-failing-auth-unreliable", Event::Deliver { to: t.clone(), reply: Reply::plain(RClass::Error(401)).with_chal(Chal { realm: true, nonce, pas }).with_mac(mac).with_fp(fp) }));
-                        v.push(("438-failing-auth-unreliable", Event::Deliver { to: t.clone(), reply: Reply::plain(RClass::Error(438)).with_chal(Chal { realm: false, nonce, pas }).with_mac(mac).with_fp(fp) }));
+                        v.push(("401-failing-auth-unreliable", Event::Deliver { to: t.clone(), reply: Reply::plain(RClass::Error(401)).with_chal(Chal { realm: true, nonce, pas, realm_v: 0 }).with_mac(mac).with_fp(fp) }));
+                        v.push(("438-failing-auth-unreliable", Event::Deliver { to: t.clone(), reply: Reply::plain(RClass::Error(438)).with_chal(Chal { realm: false, nonce, pas, realm_v: 0 }).with_mac(mac).with_fp(fp) }));
                     }
                 }
             }
